@@ -143,7 +143,7 @@ def run(ctx):
                 + [t for t in htr if t["inp"]["src"] == "expmat" and len(t["inp"]["dk"]) == 3 and t["inp"]["link"] == "complete"][40:41])
     vlib.validate_with_findings(ctx, "Trace_KernelMat", ktr, constants=K_TRACE_CONST, chunk=3000, tag="Trace_KernelMat")
     vlib.validate_with_findings(ctx, "Trace_HierClust", htr, constants=H_TRACE_CONST, chunk=3000, tag="Trace_HierClust")
-    ctx.extra = {"complete_subdomain": ("kernels: every point multiset with n <= 3 x every k; clusterings: every dissimilarity matrix with n <= 3 x 7 linkages"
+    ctx.extra = {"complete_subdomain": ("kernels: every point multiset with n <= 3 x every k; clusterings: every dissimilarity matrix with n <= 3 x {single, complete, average, weighted}"
                                         if ctx.quick else
                                         "kernels: every point multiset with n <= 4 x every k; clusterings: every dissimilarity matrix with n <= 4 "
                                         "x {single, complete, average, weighted}"),
